@@ -353,6 +353,14 @@ fn check(case: &Case) -> Outcome {
                         if !pre.write_open() {
                             fail!("C56:write-after-write-half-closed", "write accepted although the write half was closed before the operation");
                         }
+                        // a write on a read-closed stream first consumes the pending inbound flags: if one of them
+                        // closed the write half (STOP_SENDING) or reset the stream, this very write must not be accepted
+                        if m.reset || !m.write_open() {
+                            fail!(
+                                "C56:write-accepted-by-the-operation-that-consumed-stop-sending-or-reset",
+                                format!("write accepted although the stream consumed {consumed_now} frame(s) during this operation that closed the write half or reset the stream")
+                            );
+                        }
                         if *k == 0 || *k > data.len() || *k > MAX_DATA_LEN {
                             fail!("C56:write-bad-count", format!("write of {} bytes returned {k}", data.len()));
                         }
@@ -545,7 +553,7 @@ pub fn run(ctx: &mut Ctx) {
     ctx.assume("the data channel delivers whole frames (one per read) and never fails; frames are well-formed Messages");
     ctx.assume("a flag takes effect when the stream consumes the frame carrying it (observed through the channel's frame counter); end-of-file of the channel counts as FIN");
     ctx.assume("data carried in the same frame as FIN is not generated (the implementation drops it; outside the statement)");
-    ctx.assume("`poll_flush` results are not asserted; the result of the very operation that consumes a RESET is not asserted (only later operations)");
+    ctx.assume("`poll_flush` results are not asserted; for reads and closes the result of the very operation that consumes a RESET is not asserted (only later operations); a write must not be accepted by the operation that itself consumed STOP_SENDING or RESET");
 
     let depth = ctx.tier.sel(6usize, 7usize);
     ctx.sweep(
